@@ -69,6 +69,7 @@ def run_shard(prop, tier, seed, shard, nshards, out, replay=None):
         rng = np.random.default_rng([seed, int(prop[1:]), shard])
         cases = mod.cases(rng, tier, shard, nshards)
     budget = float(os.environ.get('KNEEMON_SHARD_BUDGET_S', '0') or 0)
+    refill = bool(getattr(mod, 'META', {}).get('refill'))
     for i, case in enumerate(cases):
         ctx.begin_case(i, case)
         try:
@@ -79,6 +80,20 @@ def run_shard(prop, tier, seed, shard, nshards, out, replay=None):
             ctx.harness_error('run_case', e)
         except Exception as e:   # anything escaping run_case is a harness problem
             ctx.harness_error('run_case', e)
+        if refill and isinstance(case, dict) and case.get('layout') == 'reuse' and not case.get('refilled') \
+                and (not hasattr(mod, 'refill_ok') or mod.refill_ok(case)) \
+                and isinstance(case.get('points'), np.ndarray) and case['points'].ndim == 2 and len(case['points']) >= 2:
+            # history: the caller refills the SAME buffer (same object, shape, address) with another curve and calls
+            # again - any state the library keeps per array identity instead of per value is now stale
+            case2 = dict(case, points=refill_values(case['points']), refilled=True)
+            ctx.begin_case(i, case2)
+            ctx.h('history', 'same buffer refilled with a transformed curve')
+            try:
+                mod.run_case(ctx, mods, case2)
+            except LoopBoundExceeded as e:
+                ctx.violation('loop', f'loop:{e.loopkey}', str(e))
+            except Exception as e:
+                ctx.harness_error('run_case(refill)', e)
         if len(ctx.harness_errors) > 20:
             break
         if budget and time.time() - t0 > budget:
@@ -96,6 +111,17 @@ def run_shard(prop, tier, seed, shard, nshards, out, replay=None):
         loopmon.stop()
     with open(out, 'w') as f:
         json.dump(d, f)
+
+
+def refill_values(points):
+    """Another valid curve of the same shape: x stretched about its origin, y mirrored and halved (x stays strictly
+    increasing and integral if it was, y stays inside [min y, max y], both ranges change)."""
+    import numpy as np
+    p = np.array(points, dtype=float)
+    x, y = p[:, 0], p[:, 1]
+    p[:, 0] = x[0] + 2.0 * (x - x[0])
+    p[:, 1] = (y.max() - y) * 0.5 + y.min()
+    return p
 
 
 def run_repo_tests(ctx, boot, nodeid=None):
